@@ -14,6 +14,7 @@ import (
 
 type PropCfg struct {
 	Functions   []string `json:"functions"`
+	Lemmas      []string `json:"lemmas"`
 	Assumptions []string `json:"assumptions"`
 	NotDecided  []string `json:"not_decided"`
 	Bounded     []string `json:"bounded_standins"`
@@ -130,14 +131,26 @@ func cmdFn(args []string) int {
 	for _, e := range eng.db.Errors {
 		fmt.Println("contract error:", e)
 	}
-	fn := eng.fnByShort(*name)
-	if fn == nil {
-		fmt.Println("no such function", *name)
-		return 2
-	}
-	con := eng.contractFor(fn)
 	t0 := time.Now()
-	res := eng.verifyFunction(fn, con, 4096)
+	var res *FnResult
+	if strings.HasPrefix(*name, "lemma/") {
+		for _, c := range eng.lemmas {
+			if "lemma/"+c.FnName == *name {
+				res = eng.verifyLemma(c)
+			}
+		}
+		if res == nil {
+			fmt.Println("no such lemma", *name)
+			return 2
+		}
+	} else {
+		fn := eng.fnByShort(*name)
+		if fn == nil {
+			fmt.Println("no such function", *name)
+			return 2
+		}
+		res = eng.verifyFunction(fn, eng.contractFor(fn), 4096)
+	}
 	fmt.Printf("%s: paths=%d vcs=%d gen=%.2fs err=%q\n", res.Fn, res.Paths, len(res.VCs), time.Since(t0).Seconds(), res.Err)
 	out := filepath.Join(verifDir(), "out", "fn")
 	os.RemoveAll(out)
@@ -290,6 +303,23 @@ func cmdCheck(args []string) int {
 		results = append(results, r)
 		all = append(all, r.VCs...)
 	}
+	for _, ln := range cfg.Lemmas {
+		var lc *Contract
+		for _, c := range eng.lemmas {
+			if c.FnName == ln {
+				lc = c
+			}
+		}
+		if lc == nil {
+			return undecided("lemma not found: " + ln)
+		}
+		r := eng.verifyLemma(lc)
+		if r.Err != "" {
+			return undecided("lemma " + ln + ": " + oneLine(r.Err))
+		}
+		results = append(results, r)
+		all = append(all, r.VCs...)
+	}
 	tobs := typeObligations(eng, cfg, *prop)
 	outDir := filepath.Join(vd, "out", *prop)
 	os.RemoveAll(outDir)
@@ -322,7 +352,7 @@ func cmdCheck(args []string) int {
 		}
 		var missing []string
 		for _, n := range strings.Split(strings.TrimSpace(string(eb)), "\n") {
-			if n != "" && !have[n] {
+			if n != "" && !have[n] && !positionalKind(n) {
 				missing = append(missing, n)
 			}
 		}
@@ -400,4 +430,15 @@ func oneLine(s string) string {
 		s = s[:400] + "..."
 	}
 	return s
+}
+
+// positionalKind: safety/frame obligations exist only if the code contains the construct they
+// guard (an index expression, a heap write, ...); their absence is not a failure.
+func positionalKind(name string) bool {
+	for _, k := range []string{"/bounds", "/div-by-zero", "/nil-map-write", "/typeassert", "/unreachable-panic", "/frame", "/lockset", "/lock-released"} {
+		if strings.HasSuffix(name, k) {
+			return true
+		}
+	}
+	return false
 }
